@@ -41,6 +41,17 @@
 (* string-value of the FIRST node in document order (XPath 1.0 sec. 4.2),  *)
 (* and every argument is evaluated with the context node of the call.      *)
 (*                                                                         *)
+(* Collation family ("coll"): the STATIC CONTEXT is a dimension.  d is the   *)
+(* parser's default collation, a an explicit collation argument ("none" if  *)
+(* absent), both in {codepoint, ascii-ci = html-ascii-case-insensitive,     *)
+(* F&O 5.3.5}.  UsesCollation says which functions consult a collation at   *)
+(* all: compare contains starts-with ends-with substring-before/-after      *)
+(* follow the argument, else the default; codepoint-equal, concat and every *)
+(* other string function give the code point result under EVERY default.   *)
+(* Code point boundaries ("cps"): every boundary of the XML Char production *)
+(* and its neighbours (BoundaryCps) goes through codepoints-to-string, and  *)
+(* the legal ones through every string function as 1- and 2-char strings.   *)
+(*                                                                         *)
 (* Numeric arguments are tokens (the canonical xs:double lexical form);    *)
 (* NumVal gives the value in QUARTERS, or an IEEE special.                 *)
 (*                                                                         *)
@@ -60,8 +71,9 @@ CONSTANTS MaxLen,     \* strings up to this length are states that are expanded
           Part,       \* only strings whose first code point (0 for "") is in Part are expanded
           UriAlpha,   \* code points of the URI-escaping family: '%', hex digits, non-hex characters
           UriLen,     \* ... strings up to this length ('%20', '%4G', 'a%2F'); only the 3 escaping functions apply
+          AlphaC,     \* collation family: strings <= MaxLen over AlphaC are the first arguments ('a', 'A', ...)
           DocLen,     \* node-set argument family: context element with up to DocLen children named b, c, d
-          Acts        \* action families: subset of {"fn1","fn2","translate","substring","concatx","rejoin","cps","uri","doc"}
+          Acts        \* action families: subset of {"fn1","fn2","translate","substring","concatx","rejoin","cps","uri","doc","coll"}
 
 VARIABLE cur
 vars == <<cur>>
@@ -239,8 +251,17 @@ Apply2(f, v, t) ==
 T2 == StrUpTo(Alpha2, 2)
 MapFrom == StrUpTo(AlphaM, 2) \cup {<<97, 98, 97>>, <<97, 97, 98>>, <<98, 97, 97>>}
 MapTo(m) == {<<>>, <<98>>, <<65, 128512>>, <<98, 97, 49>>, m}
-BadCps == {<<0>>, <<97, 55296>>, <<65534>>, <<1114112, 98>>, <<57343>>}
-GoodCps == {<<55295, 57344>>, <<65533, 65536>>, <<1114111>>, <<9, 10, 13>>}
+(* every boundary of  Char ::= #x9 | #xA | #xD | [#x20-#xD7FF] | [#xE000-#xFFFD] | [#x10000-#x10FFFF]
+   (XML 1.0) and the classes next to it: C0/C1 controls, DEL, NEL, surrogates, the noncharacter
+   blocks U+FDD0..U+FDEF and U+nFFFE/U+nFFFF (legal except U+FFFE/U+FFFF), first/last astral *)
+BoundaryCps == {0, 8, 9, 10, 11, 12, 13, 14, 31, 32, 127, 128, 133, 159, 55295, 55296, 57343, 57344,
+                64975, 64976, 65007, 65008, 65533, 65534, 65535, 65536, 131070, 131071, 1114111, 1114112}
+(* listed independently of IsXmlChar; LawBoundary compares the two *)
+IllegalBoundary == {0, 8, 11, 12, 14, 31, 55296, 57343, 65534, 65535, 1114112}
+LegalBoundary == BoundaryCps \ IllegalBoundary
+BadCps == {<<c>> : c \in IllegalBoundary} \cup {<<97, c>> : c \in IllegalBoundary} \cup {<<c, 98>> : c \in IllegalBoundary}
+GoodCps == {<<c>> : c \in LegalBoundary} \cup {<<97, c>> : c \in LegalBoundary} \cup {<<c, 98>> : c \in LegalBoundary}
+             \cup {<<55295, 57344>>, <<65533, 65536>>, <<9, 10, 13>>, <<64976, 65007>>}
 
 SweepChars == (32..126) \cup {9, 10, 13}       \* printable ASCII and the XML whitespace characters
 Core == Alpha       \* results that leave the alphabet ('B' = upper-case('b'), '1' from translate) are not expanded
@@ -248,7 +269,9 @@ InPart(s) == IF s = <<>> THEN 0 \in Part ELSE s[1] \in Part
 Expandable(v) ==
   \/ v.t \in {"cps", "empty"}
   \/ v.t = "str" /\ Len(v.s) <= MaxLen /\ InPart(v.s)
-       /\ (Len(v.s) <= 1 \/ \A i \in 1..Len(v.s) : v.s[i] \in Core)
+       /\ \/ Len(v.s) <= 1
+          \/ \A i \in 1..Len(v.s) : v.s[i] \in Core
+          \/ "cps" \in Acts /\ v.s \in GoodCps        \* the legal boundary code points next to 'a' / 'b'
 
 (* URI escaping family *)
 UriF == {"encode-for-uri", "iri-to-uri", "escape-html-uri"}
@@ -278,9 +301,40 @@ DocConcat3(p, q, r) == IsDoc /\ cur' = Str(ArgVal(cur.kids, p) \o ArgVal(cur.kid
 (* substring(p, string-length(q)): a numeric argument computed from a node-set argument *)
 DocSubstring(p, q) == IsDoc /\ cur' = Str(Substr2(ArgVal(cur.kids, p), Fin(4 * Len(ArgVal(cur.kids, q)))))
 
+(* collation family: the static context (default collation d) and the collation argument a *)
+Collations == {"codepoint", "ascii-ci"}
+(* html-ascii-case-insensitive (F&O 5.3.5): code points compared after mapping A-Z to a-z *)
+Key(e, s) == IF e = "ascii-ci" THEN LowerCase(s) ELSE s
+UsesCollation == {"contains", "starts-with", "ends-with", "substring-before", "substring-after", "compare"}
+Effective(f, d, a) == IF f \notin UsesCollation THEN "codepoint" ELSE IF a # "none" THEN a ELSE d
+Apply2C(f, v, t, e) ==
+  LET s == AsStr(v)
+      ks == Key(e, s)
+      kt == Key(e, t) IN
+  CASE f = "contains" -> Bool(Contains(ks, kt))
+    [] f = "starts-with" -> Bool(StartsWith(ks, kt))
+    [] f = "ends-with" -> Bool(EndsWith(ks, kt))
+    [] f = "substring-before" -> Str(IF ~Contains(ks, kt) THEN <<>> ELSE SubSeq(s, 1, FirstIndex(ks, kt) - 1))
+    [] f = "substring-after" -> Str(IF ~Contains(ks, kt) THEN <<>> ELSE SubSeq(s, FirstIndex(ks, kt) + Len(t), Len(s)))
+    [] f = "compare" -> IntV(Cmp(ks, kt))
+    [] OTHER -> Apply2(f, v, t)                 \* concat, codepoint-equal: no collation at all
+T2C == StrUpTo({97, 65}, 2)
+CollExpandable(v) == "coll" \in Acts /\ 0 \in Part /\ v.t = "str" /\ Len(v.s) <= MaxLen
+                       /\ \A i \in 1..Len(v.s) : v.s[i] \in AlphaC
+CollCombos(f) == IF f \in UsesCollation
+                 THEN {<<"ascii-ci", "none">>, <<"ascii-ci", "codepoint">>, <<"codepoint", "ascii-ci">>, <<"ascii-ci", "ascii-ci">>}
+                 ELSE {<<"ascii-ci", "none">>}
+CollFn2(f, t, d, a) == CollExpandable(cur) /\ <<d, a>> \in CollCombos(f)
+                       /\ cur' = Apply2C(f, cur, t, Effective(f, d, a))
+(* functions without a collation parameter under a non-codepoint default collation *)
+CollFn1(f, d) == CollExpandable(cur) /\ cur' = Apply1(f, cur)
+CollTranslate(m, r, d) == CollExpandable(cur) /\ cur' = Str(TranslateS(cur.s, m, r))
+CollSubstring(a, d) == CollExpandable(cur) /\ cur' = Str(Substr2(cur.s, NumVal(a)))
+
 Init == \/ cur \in {Str(s) : s \in {x \in StrUpTo(Alpha, MaxLen) : InPart(x)}}
         \/ "uri" \in Acts /\ 0 \in Part /\ cur \in {Str(s) : s \in StrUpTo(UriAlpha, UriLen)}
         \/ "doc" \in Acts /\ 0 \in Part /\ cur \in {Doc(k) : k \in StrUpTo(DocNames, DocLen)}
+        \/ "coll" \in Acts /\ 0 \in Part /\ cur \in {Str(s) : s \in StrUpTo(AlphaC, MaxLen)}
         \/ Sweep /\ cur \in {Str(<<c>>) : c \in {x \in SweepChars : x \in Part}}
         \/ 0 \in Part /\ cur = Empty
         \/ 0 \in Part /\ "cps" \in Acts /\ cur \in {Cps(c) : c \in BadCps \cup GoodCps}
@@ -309,6 +363,10 @@ Next == \/ \E f \in F1 : Fn1(f)
         \/ \E b \in BOOLEAN : ConcatBool(b)
         \/ CpToStr
         \/ \E t \in T2 : Rejoin(t)
+        \/ \E f \in F2, t \in T2C, d \in Collations, a \in Collations \cup {"none"} : CollFn2(f, t, d, a)
+        \/ \E f \in F1 : CollFn1(f, "ascii-ci")
+        \/ \E mr \in {<<<<97>>, <<65>>>>, <<<<65, 97>>, <<98>>>>} : CollTranslate(mr[1], mr[2], "ascii-ci")
+        \/ CollSubstring("2", "ascii-ci")
         \/ \E f \in DocF1, p \in ArgPaths : DocFn1(f, p)
         \/ \E f \in DocF2, p \in ArgPaths, q \in ArgPaths : DocFn2(f, p, q)
         \/ \E p \in ArgPaths, q \in ArgPaths, r \in ArgPaths : DocTranslate(p, q, r)
@@ -418,7 +476,29 @@ LawDoc == cur.t = "doc" =>
          ELSE ArgVal(k, n) = <<>>
     /\ \A p \in ArgPaths, q \in ArgPaths :
          Apply2("concat", Str(ArgVal(k, p)), ArgVal(k, q)).s = ArgVal(k, p) \o ArgVal(k, q)
+(* the collation dimension: the codepoint collation is the plain definition; ascii-ci identifies
+   exactly the ASCII case variants; functions outside UsesCollation never depend on d or a *)
+LawColl == cur.t = "str" /\ CollExpandable(cur) =>
+  \A t \in T2C :
+    /\ \A f \in F2 : Apply2C(f, cur, t, "codepoint") = Apply2(f, cur, t)
+    /\ \A f \in F2 \ UsesCollation, d \in Collations, a \in Collations \cup {"none"} :
+         Apply2C(f, cur, t, Effective(f, d, a)) = Apply2(f, cur, t)
+    /\ \A f \in UsesCollation, d \in Collations, a \in Collations : Effective(f, d, a) = a
+    /\ \A f \in UsesCollation, d \in Collations : Effective(f, d, "none") = d
+    /\ (Apply2C("compare", cur, t, "ascii-ci").i = 0 <=> LowerCase(S) = LowerCase(t))
+    /\ Apply2C("compare", Str(UpperCase(S)), LowerCase(S), "ascii-ci").i = 0
+    /\ (Apply2C("contains", cur, t, "codepoint").b => Apply2C("contains", cur, t, "ascii-ci").b)
+    /\ (Apply2C("contains", cur, t, "ascii-ci").b =>
+          LET b == Apply2C("substring-before", cur, t, "ascii-ci").s
+              a == Apply2C("substring-after", cur, t, "ascii-ci").s IN
+            /\ Len(b) + Len(t) + Len(a) = Len(S)
+            /\ LowerCase(b \o t \o a) = LowerCase(S) /\ StartsWith(S, b) /\ EndsWith(S, a))
+(* the XML Char production on its boundaries, against the independent listing *)
+LawBoundary == \A c \in BoundaryCps : IsXmlChar(c) <=> c \notin IllegalBoundary
 (* a code point sequence converts to a string iff all are XML characters, and then round-trips *)
 LawCps == cur.t = "cps" => LET r == CpToStrV(cur.c) IN
-            IF cur.c \in BadCps THEN r = Err("FOCH0001") ELSE r.t = "str" /\ StrToCpV(r) = cur
+            /\ LawBoundary
+            /\ IF cur.c \in BadCps THEN r = Err("FOCH0001")
+               ELSE IF cur.c \in GoodCps THEN r.t = "str" /\ StrToCpV(r) = cur /\ IntV(Len(cur.c)) = Apply1("string-length", r)
+               ELSE (r.t = "err" <=> \E i \in 1..Len(cur.c) : cur.c[i] \in IllegalBoundary \/ ~IsXmlChar(cur.c[i]))
 =============================================================================
